@@ -169,7 +169,7 @@ class C18(Check):
             driver.write_files(d, files)
             cwd = d
             desc = {"generated": case[1]}
-        loose = case[0] in ("ex", "test") and paths.iterates_a_map(cwd)
+        loose = paths.iterates_a_map(cwd)
         d1 = os.path.join(d, "dump-run.txt")
         d2 = os.path.join(d, "dump-tr.txt")
         r1 = driver.run(["run", entry, "-q"], cwd, env={"MSCRIPT_VERIF_DUMP": d1}, timeout=(8 if os.environ.get("VERIF_TIER_","quick")=="quick" else 30))
